@@ -62,3 +62,13 @@ package ndjson
 
 // Output may not depend on the iteration order of a Go map (C12): decided per `range` over a map.
 //@ map-order C12 package
+
+// C02: every union that a protocol can carry needs its nlohmann adl_serializer, also one that only exists inside an
+// instantiation of a generic definition (`Image<[int, float]>` next to `Image<[string, bool]>`: one definition name,
+// two definition objects, two different unions). The discovery walk follows a reference that spells type arguments
+// into the definition object that reference owns, and always goes on below the node it is at.
+//@ func WriteNdJson$1
+//@   property C02,C08
+//@   ensures an_instantiated_generic_is_followed_into_its_own_definition: typeof(node) == *dsl.SimpleType && node.(*dsl.SimpleType) != nil && len(node.(*dsl.SimpleType).TypeArguments) > 0 ==> called("dsl.(Visitor).Visit")
+//@   ensures the_walk_always_descends: called("dsl.(Visitor).VisitChildren")
+
